@@ -18,6 +18,7 @@ mod c14;
 mod c15;
 mod c16;
 mod c18;
+mod c19;
 mod lite;
 mod truth;
 mod xs;
@@ -78,6 +79,7 @@ fn main() {
             "C15" => c15::replay(&v),
             "C16" => c16::replay(&v),
             "C18" => c18::replay(&v),
+            "C19" => c19::replay(&v),
             _ => {
                 eprintln!("no replay for {id}");
                 2
@@ -101,6 +103,7 @@ fn main() {
             "C15" => c15::run(tier),
             "C16" => c16::run(tier),
             "C18" => c18::run(tier),
+            "C19" => c19::run(tier),
             "SMOKE" => smoke::run("/tmp/x/smoke"),
             _ => {
                 eprintln!("unknown property {id}");
